@@ -46,6 +46,7 @@ type Solver struct {
 	NUnknown  int
 	Errors    []string
 	SolveTime time.Duration
+	stack     []*Term // assertions currently on the solver's stack, one push level each
 	buf       strings.Builder
 }
 
@@ -83,10 +84,11 @@ func (s *Solver) start() error {
 	}
 	s.cmd, s.in, s.out = cmd, in, bufio.NewReaderSize(out, 1<<16)
 	s.defined = map[int]bool{}
+	s.stack = nil
 	if s.Kind == "cvc5" {
-		s.send("(set-logic ALL)\n")
+		s.send("(set-option :global-declarations true)\n(set-logic ALL)\n")
 	} else {
-		s.send("(set-option :produce-models true)\n")
+		s.send("(set-option :global-declarations true)\n(set-option :produce-models true)\n")
 	}
 	return nil
 }
@@ -313,6 +315,140 @@ func (s *Solver) Check(asserts []*Term, wantModel []*Term) (Result, map[int]uint
 		b.WriteString("(assert ")
 		b.WriteString(s.ref(a))
 		b.WriteString(")\n")
+	}
+	b.WriteString("(check-sat)\n")
+	lines, err := s.roundTrip(b.String())
+	res := Unknown
+	var model map[int]uint64
+	if err != nil {
+		s.Errors = append(s.Errors, err.Error())
+		s.Restart()
+		s.NUnknown++
+		return Unknown, nil
+	}
+	bad := false
+	for _, l := range lines {
+		switch {
+		case l == "sat":
+			res = Sat
+		case l == "unsat":
+			res = Unsat
+		case l == "unknown" || l == "timeout":
+			res = Unknown
+		case strings.HasPrefix(l, "(error"):
+			bad = true
+			s.Errors = append(s.Errors, l)
+		}
+	}
+	if bad {
+		res = Unknown
+	}
+	if res == Sat && len(wantModel) > 0 {
+		var q strings.Builder
+		q.WriteString("(get-value (")
+		for _, m := range wantModel {
+			q.WriteString(s.ref(m))
+			q.WriteByte(' ')
+		}
+		q.WriteString("))\n")
+		ml, err := s.roundTrip(q.String())
+		if err == nil {
+			vals, perr := parseValues(strings.Join(ml, " "))
+			if perr == nil && len(vals) == len(wantModel) {
+				model = map[int]uint64{}
+				for i, m := range wantModel {
+					model[m.ID] = vals[i]
+				}
+			} else {
+				s.Errors = append(s.Errors, fmt.Sprintf("model parse: %v (%d/%d)", perr, len(vals), len(wantModel)))
+			}
+		}
+	}
+	s.roundTrip("(pop 1)\n")
+	switch res {
+	case Sat:
+		s.NSat++
+	case Unsat:
+		s.NUnsat++
+	default:
+		s.NUnknown++
+	}
+	return res, model
+}
+
+// hasAxiomTerm reports whether an undefined conversion/arithmetic constant (which needs a
+// level-0 axiom) is reachable from t.
+func (s *Solver) hasAxiomTerm(t *Term, seen map[int]bool) bool {
+	if t.Op == OpConst || s.defined[t.ID] || seen[t.ID] {
+		return false
+	}
+	seen[t.ID] = true
+	if t.Op == OpFConv || t.Op == OpFArith {
+		return true
+	}
+	for _, a := range t.Args {
+		if s.hasAxiomTerm(a, seen) {
+			return true
+		}
+	}
+	return false
+}
+
+// CheckInc decides pc ∧ extra keeping the path condition on the solver's assertion stack
+// between calls (consecutive paths share long prefixes).
+func (s *Solver) CheckInc(pc []*Term, extra *Term, wantModel []*Term) (Result, map[int]uint64) {
+	start := time.Now()
+	defer func() { s.SolveTime += time.Since(start) }()
+	s.Queries++
+	var b strings.Builder
+	// axioms must live at level 0
+	seen := map[int]bool{}
+	need := false
+	for _, t := range pc {
+		if s.hasAxiomTerm(t, seen) {
+			need = true
+		}
+	}
+	if extra != nil && s.hasAxiomTerm(extra, seen) {
+		need = true
+	}
+	if need && len(s.stack) > 0 {
+		fmt.Fprintf(&b, "(pop %d)\n", len(s.stack))
+		s.stack = s.stack[:0]
+	}
+	k := 0
+	for k < len(s.stack) && k < len(pc) && s.stack[k] == pc[k] {
+		k++
+	}
+	if k < len(s.stack) {
+		fmt.Fprintf(&b, "(pop %d)\n", len(s.stack)-k)
+		s.stack = s.stack[:k]
+	}
+	if len(s.stack) == 0 {
+		// level 0: definitions with axioms are safe here
+		for _, t := range pc {
+			s.define(t, &b)
+		}
+		if extra != nil {
+			s.define(extra, &b)
+		}
+	}
+	for _, t := range pc[k:] {
+		s.define(t, &b)
+		b.WriteString("(push 1)\n(assert ")
+		b.WriteString(s.ref(t))
+		b.WriteString(")\n")
+		s.stack = append(s.stack, t)
+	}
+	if extra != nil {
+		s.define(extra, &b)
+	}
+	for _, m := range wantModel {
+		s.define(m, &b)
+	}
+	b.WriteString("(push 1)\n")
+	if extra != nil && !extra.IsTrue() {
+		b.WriteString("(assert " + s.ref(extra) + ")\n")
 	}
 	b.WriteString("(check-sat)\n")
 	lines, err := s.roundTrip(b.String())
